@@ -231,6 +231,18 @@ def check_paths(case, ctx: Ctx):
     tpts = [list(t) for t in tarr]
     h = ctx.call(f"{name} facade", facade, name, arr, bins, False, warr, case.get("how", "default"))
     require(type(h) is K, "facade_class", f"{type(h).__name__}")
+    # an integer number of angular bins means that many equal bins over the full range
+    for key, top in (("phi", TWO_PI), ("theta", math.pi)):
+        if isinstance(case["bins"].get(key), int):
+            names_ = {"polar": ["r", "phi"], "azimuthal": ["phi"], "spherical": ["r", "theta", "phi"], "spherical_surface": ["theta", "phi"],
+                      "cylindrical": ["r", "phi", "z"]}[name]
+            a_ = names_.index(key)
+            b_ = np.asarray(h.bins if h.ndim == 1 else h.bins[a_], dtype=float)
+            n_ = case["bins"][key]
+            require(len(b_) == n_ and b_[0][0] == 0.0 and abs(b_[-1][1] - top) <= 4 * math.ulp(top), "angular_bin_count",
+                    f"{name}: {key}_bins={n_} gave {len(b_)} bins over [{b_[0][0]!r}, {b_[-1][1]!r}]")
+            for i_ in range(n_):
+                require(abs((b_[i_][1] - b_[i_][0]) - top / n_) <= 8 * math.ulp(top), "angular_bins_unequal", f"{name}: {key} bin {i_}: {b_[i_].tolist()}")
     m, geo = expected_contents(h, tpts, ws)
     assert_contents(ctx, h, m, "facade")
     paths = 1
